@@ -23,6 +23,10 @@ def gen_salt(r, alnum_only=False):
             return "sälz✓" + "".join(r.choice(SALT_CHARS) for _ in range(r.randint(0, 4)))
         if c < 0.16:
             return r.choice(["_", "#", "ü", "+", "@", "~"]) + "".join(r.choice(SALT_CHARS) for _ in range(r.randint(1, 8)))
+        if c < 0.21:
+            # white space and quote characters at the ends (a salt pasted from a log line, quotes and all)
+            core = "".join(r.choice(SALT_CHARS) for _ in range(r.randint(1, 8)))
+            return r.choice([" %s", "%s ", "\"%s\"", "'%s", "%s'", "\t%s", " %s  ", "%s\""]) % core
     return "".join(r.choice(SALT_CHARS) for _ in range(r.randint(1, 16)))
 
 
